@@ -100,6 +100,32 @@ func coqAppendReq(q *appendReq, es []*entry) string {
 	return fmt.Sprintf("(mkAppendReq %d %d %d %d %d %s)", q.term, q.src, q.prevLogIndex, q.prevLogTerm, q.ldrCommitIndex, coqEntries(es))
 }
 
+// cutAppendWire cuts an append request that carries entries somewhere after its header: the result
+// holds k < numEntries whole entries and possibly a part of the next one.
+func cutAppendWire(rnd *rand.Rand, wire []byte) ([]byte, []*entry, bool) {
+	rd := bytes.NewReader(wire[1:])
+	q := &appendReq{}
+	if err := q.decode(rd); err != nil || q.numEntries == 0 {
+		return nil, nil, false
+	}
+	ends := []int{len(wire) - rd.Len()}
+	var es []*entry
+	for k := uint64(0); k < q.numEntries; k++ {
+		e := &entry{}
+		if err := e.decode(rd); err != nil {
+			return nil, nil, false
+		}
+		es = append(es, e)
+		ends = append(ends, len(wire)-rd.Len())
+	}
+	k := rnd.Intn(len(es))
+	at := ends[k]
+	if rnd.Intn(2) == 0 {
+		at += rnd.Intn(ends[k+1] - ends[k]) // inside entry k+1
+	}
+	return append([]byte(nil), wire[:at]...), es[:k], true
+}
+
 func coqOptions(r *Raft, order []uint64) string {
 	var o []string
 	for _, id := range order {
@@ -187,7 +213,7 @@ func (g *node1Gen) termAt(i uint64) (uint64, bool) {
 
 func (g *node1Gen) emit(desc, ev string, pre string, res simResp) {
 	out := "GPanic"
-	if res.panicv == nil && res.readErr == nil {
+	if res.panicv == nil && (res.readErr == nil || res.resp != nil) {
 		out = fmt.Sprintf("(GOk %s %s)", coqObs(res.resp), g.n.dump())
 	}
 	g.w.states[pre] = true
@@ -314,8 +340,17 @@ func (g *node1Gen) step() error {
 		}
 		commit := g.pick(0, r.commitIndex, prev, prev+uint64(k), prev+uint64(k)+1, r.commitIndex+1)
 		q := &appendReq{req: req{term, g.pick(2, 3)}, prevLogIndex: prev, prevLogTerm: pterm, ldrCommitIndex: commit, numEntries: uint64(len(es))}
-		res := n.deliverRPC(wireReq(q, wireEntries(es)))
-		g.emit("appendReq", "(EAppendReq "+coqAppendReq(q, es)+")", pre, res)
+		wire := wireReq(q, wireEntries(es))
+		ev := "(EAppendReq " + coqAppendReq(q, es) + ")"
+		desc := "appendReq"
+		if g.rnd.Intn(7) == 0 {
+			// the connection breaks inside the request: the entries read so far are handled, the answer is readErr
+			if w2, es2, ok := cutAppendWire(g.rnd, wire); ok {
+				wire, ev, desc = w2, "(EAppendReqCut "+coqAppendReq(q, es2)+")", "appendReqCut"
+			}
+		}
+		res := n.deliverRPC(wire)
+		g.emit(desc, ev, pre, res)
 		if res.panicv != nil {
 			return g.restart(false)
 		}
